@@ -41,4 +41,11 @@ theorem tie_visual_voting_params (mahaThr f32max : Rat) (kind : PosKind) (minVot
 theorem tie_batch_visual_voting_params (mahaThr f32max : Rat) (kind : PosKind) (minVotes : Nat) :
     batch_visual_voting_params mahaThr f32max kind minVotes = visual_voting_params mahaThr f32max kind minVotes := rfl
 
+/-- BatchSort's voting thread hands `SortVoting` the same parameters as the simple tracker: the quantised threshold of the
+configured metric, the number of candidates of the scene job, the number of stored tracks -/
+theorem tie_batch_sort_voting_params {T : Type} (quant : Rat → Int) (mult mahaThr : Rat) (method : PosKind) (tracks : List T) (stats : List Nat) :
+    batch_sort_voting_params quant mult mahaThr method tracks () stats =
+      sort_voting_params quant mult mahaThr method tracks.length stats := by
+  cases method <;> rfl
+
 end SimVerif.Tie
